@@ -342,6 +342,13 @@ func (w *world) main() {
 	if _, ok := vsched.Recv2(res); ok {
 		w.misuse = "a result was delivered after the channel was closed"
 	}
+	if w.id == "C02" && !p.Second {
+		// Stop calls that arrive when the attack is over (racing with its wind-down)
+		// count as well: still at most one Stop of the whole history reports true
+		w.stops = append(w.stops, atk.Stop())
+		vsched.EnvYield("late stop")
+		w.stops = append(w.stops, atk.Stop())
+	}
 }
 
 // invariant is evaluated by the driver after every transition.
